@@ -201,7 +201,12 @@ type Scenario struct {
 	Fair        bool    // every honest keyper completes >=1 sync+send step per block
 	Stalls      []stall // only if !Fair
 	Tail        int     // fair blocks after the end of the apologizing phase
-	PlainBudget int     // send budget per step under the plain schedule (0 = unlimited): 1 puts a keyper's commitment and evals into different blocks
+	// Lag: keyper at position p runs its main loop only every Lag[p]-th block
+	// (open height H with (H-h0-LagOffset) % Lag[p] == 0) from the eon start until
+	// the DKG is finalized: a slow node that catches up over ranges of several blocks.
+	Lag         map[int]int
+	LagOffset   int
+	PlainBudget int // send budget per step under the plain schedule (0 = unlimited): 1 puts a keyper's commitment and evals into different blocks
 	Replicas    int
 }
 
@@ -215,7 +220,14 @@ func (sc Scenario) String() string {
 	for _, k := range ks {
 		bz = append(bz, fmt.Sprintf("%d%s", k, sc.Byz[k]))
 	}
-	return fmt.Sprintf("n=%d t=%d L=%d order=%v fork=%v fair=%v stalls=%v byz=[%s]", sc.N, sc.T, sc.L, sc.Order, sc.ForkEnabled, sc.Fair, sc.Stalls, strings.Join(bz, " "))
+	lag := ""
+	if len(sc.Lag) > 0 {
+		lag = fmt.Sprintf(" lag=%v+%d", sc.Lag, sc.LagOffset)
+	}
+	if sc.PlainBudget > 0 {
+		lag += fmt.Sprintf(" budget=%d", sc.PlainBudget)
+	}
+	return fmt.Sprintf("n=%d t=%d L=%d order=%v fork=%v fair=%v stalls=%v%s byz=[%s]", sc.N, sc.T, sc.L, sc.Order, sc.ForkEnabled, sc.Fair, sc.Stalls, lag, strings.Join(bz, " "))
 }
 
 func (sc Scenario) honest() []int {
@@ -466,6 +478,24 @@ func (r *Run) unsupported() []string {
 
 func (r *Run) stepNode(n *Node, budget int) {
 	var err error
+	if r.checkPersisted {
+		// also between the per-block transactions of one sync range: the
+		// driver fetches the next block's results right after the previous
+		// block's transaction committed
+		first := true
+		n.Client.Watch = func(m string) {
+			if m != "BlockResults" {
+				return
+			}
+			if first {
+				first = false
+				return
+			}
+			if d := persistedVsMemory(n); d != "" && len(r.persistProblems) < 5 {
+				r.persistProblems = append(r.persistProblems, fmt.Sprintf("k%d inside a sync range at open height %d, after the transaction of block %d committed and before the next block of the range: %s", n.Pos, r.chain.OpenHeight(), n.syncedTo(), d))
+			}
+		}
+	}
 	if r.StepHook != nil {
 		err = r.StepHook(r, n, budget)
 	} else {
@@ -680,6 +710,11 @@ func (r *Run) stalled(pos int, H int64) bool {
 	if r.h0 == 0 {
 		return false
 	}
+	if per := int64(r.sc.Lag[pos]); per > 1 && H > r.h0 && H <= r.h0+3*r.sc.L+4 {
+		if (H-r.h0-int64(r.sc.LagOffset))%per != 0 {
+			return true
+		}
+	}
 	for _, s := range r.sc.Stalls {
 		if s.Pos == pos && H >= r.h0+int64(s.From) && H < r.h0+int64(s.From+s.Len) {
 			return true
@@ -701,6 +736,9 @@ func (r *Run) block(generated bool) {
 			budget = r.sc.PlainBudget
 		}
 		for _, p := range hs {
+			if r.stalled(p, H) {
+				continue
+			}
 			slots = append(slots, slot{p, budget})
 		}
 	} else {
